@@ -235,18 +235,10 @@ class Ctx:
         if f is None:
             return None
         # known-finding signature?
-        for k in self.kfs:
-            if k.sig:
-                pred = self._sigs.get(k.sig)
-                if pred is None:
-                    raise HarnessError(f"known finding {k.slug}: unknown signature {k.sig}")
-                try:
-                    hit = pred(case, f)
-                except Exception:  # noqa: BLE001
-                    hit = False
-                if hit:
-                    c["known_finding_hit:" + k.slug] += 1
-                    return None
+        slug = sig_hit(self.mod, self.kfs, case, f)
+        if slug:
+            c["known_finding_hit:" + slug] += 1
+            return None
         b = f.bucket
         if self._buckets[b] < self.MAX_FAIL_PER_BUCKET and len(self._buckets) < self.MAX_BUCKETS:
             self.res.failures.append((b, f.detail, case))
@@ -303,6 +295,25 @@ class Ctx:
             self.res.exhaustive.append(domain)
         elif exhaustive:
             self.res.counters["sweep_incomplete:" + domain] += 1
+
+
+def sig_hit(mod: Any, kfs: list[KnownFinding], case: Any, f: Failure) -> str | None:
+    """Slug of the open known finding of this property whose narrow signature matches the failure, if any."""
+    sigs = getattr(mod, "SIGS", {})
+    for k in kfs:
+        if k.state != "open" or k.prop != mod.ID or not k.sig:
+            continue
+        pred = sigs.get(k.sig)
+        if pred is None:
+            raise HarnessError(f"known finding {k.slug}: unknown signature {k.sig}")
+        try:
+            if pred(case, f):
+                return k.slug
+        except HarnessError:
+            raise
+        except Exception:  # noqa: BLE001
+            pass
+    return None
 
 
 def zlib_crc(s: str) -> int:
